@@ -377,7 +377,7 @@ def c11_facts(repo, inc, sk, facts, notes):
         bodies = _c11_fn_bodies(txt, ['compute_encoded_size', 'encode'])
         if any(re.search(r'fmtquill::|\bfmt::|\bformat(?:_to|_to_n|ted_size)?\s*\(', b) for _, b in bodies):
             fmt_h.append('quill/' + h)
-        if any(re.search(r'\.(?:w?string|u8string|native)\s*\(\s*\)|std::(?:w?string|vector|deque|list|map|set|unique_ptr|shared_ptr)\s*(?:<[^;{}]*>)?\s*(?:\w+\s*)?[{(;=]|std::to_string|std::make_(?:unique|shared)|\bnew\b(?!\s*\()|\b(?:malloc|calloc|realloc|strdup)\s*\(', b) for _, b in bodies):
+        if any(re.search(r'\.(?:w?string|u8string|native)\s*\(\s*\)|std::(?:w?string|vector|deque|list|map|set|unique_ptr|shared_ptr)\b\s*(?:<[^;{}]*>)?(?:\s*const\b)?\s*(?:\w+\s*)?[{(;=]|std::to_string|std::make_(?:unique|shared)|\bnew\b(?!\s*\()|\b(?:malloc|calloc|realloc|strdup)\s*\(', b) for _, b in bodies):
             tmp_h.append('quill/' + h)
     sk['c11_caller_fmt_headers'] = fmt_h
     sk['c11_caller_temp_headers'] = tmp_h
